@@ -97,12 +97,27 @@ def execute(case):
     return {"ok": not fails, "failures": fails, "outcome": "ok" if not fails else fails[0]["sig"].get("kind", "leaf-mismatch"), "nontrivial": True}
 
 
+def execute_replaced(case):
+    a = treecheck.spec_from_case({"spec": SPEC, "devs": []})
+    b = treecheck.spec_from_case({"spec": SPEC, "devs": case["devs"]})
+    out = treecheck.check_replaced(a, b, kind=case["fs"], keep_mtime=case["keep_mtime"], only=["/@"])
+    fails = out["failures"]
+    for f in fails:
+        f["detail"] = f"volume directory replaced in place on {case['fs']} (modification time {'kept' if case['keep_mtime'] else 'new'}), second open: {f['detail']}"
+        f["case"] = {**case, "fn": "execute_replaced"}
+    return {"ok": not fails, "failures": fails[:3], "outcome": "replaced-ok" if not fails else "replaced-stale", "nontrivial": True}
+
+
 def run(res, tier, seed):
     res.rule = (
         "every text field of volume descriptor + text record x {blank, 1 char, full width, inner spaces, right-justified, punctuation,"
         " quotes, mixed case, padded}; 6 all-fields-at-once products; creation timestamp over years{2014,2016,2049} x days"
         " {0101,0228,0229,0301,1231} x h{00,23} x m{00,59} x s{00,59} x cs{00,01,99} (quick: every 7th); 0..12 file pointers with"
-        " the last pointer rewritten; creation times at hours 0-3 and 23 of eight daylight-saving switch-over days under four local time zones. Root attributes must be exactly the documented set with the reference values."
+        " the last pointer rewritten; creation times at hours 0-3 and 23 of eight daylight-saving switch-over days under four local time zones; the volume directory replaced in place (modification time kept / new) between two opens. Root attributes must be exactly the documented set with the reference values."
     )
     res.assumptions = ["printable ASCII contents only (the format's character class)"]
     core.run_cases(res, __name__, plan(tier, seed))
+    allat = next(c for c in plan(tier, seed) if c["label"] == "all-text-fields#2")
+    rep = [{"fs": fs, "keep_mtime": km, "devs": allat["devs"]} for fs in ("local", "mcfs", "file") for km in (True, False)]
+    for idx, case, out in core.pool_map(__name__, "execute_replaced", rep, chunksize=1):
+        res.record({"fn": "execute_replaced", "fs": case["fs"], "keep_mtime": case["keep_mtime"]}, out, order=10**6 + idx)
